@@ -33,7 +33,9 @@ REQUIRED = ["KV.C07.count_block_indep", "KV.C07.lmplz_indep", "KV.C07.lmplz_inde
             "KV.C07.collapse_partition_indep", "KV.C07.prune_partition_indep",
             "KV.C07.lmplz_indep_vocab", "KV.C07.sort_hyp_discharged", "KV.C07.sort_hyp_discharged_code",
             "KV.C07.count_blocks_nodup", "KV.C07.chain_stream_deterministic",
-            "KV.C07.lmplz_eq_spec_discharged", "KV.C07.lmplz_indep_discharged"]
+            "KV.C07.lmplz_eq_spec_discharged", "KV.C07.lmplz_indep_discharged",
+            "KV.C07.chain_stage_stream", "KV.C07.mergeRight_partition", "KV.C07.mergeRightUnigram_partition",
+            "KV.C07.single_chain_stages", "KV.C07.lmplz_indep_final2"]
 
 OKISH = ("ok", "config")
 
